@@ -36,6 +36,9 @@ func (svr *ComputeServer) BasicCompute(
 		err error
 	)
 	opts := []basic.ComputeOpt{}
+	if request.GetParams() == nil {
+		return nil, status.Error(codes.InvalidArgument, "missing params")
+	}
 	if lt, ok := svr.core.StoredTrustMatrices.Load(request.Params.LocalTrustId); ok {
 		_ = lt.LockAndRun(func(c1 *sparse.Matrix, timestamp *big.Int) error {
 			logger.Info().
